@@ -207,8 +207,8 @@ def token_products(tokens, k):
 # ---- independent grammar oracle -------------------------------------------------------------
 
 DEC_OCTET = r"(?:0|[1-9][0-9]{0,2})"
-PORT_RE = re.compile(rb"^(?:0|[1-9][0-9]{0,4})$")
-IP4_RE = re.compile((r"^%s\.%s\.%s\.%s$" % ((DEC_OCTET,) * 4)).encode())
+PORT_RE = re.compile(rb"\A(?:0|[1-9][0-9]{0,4})\Z")
+IP4_RE = re.compile((r"\A%s\.%s\.%s\.%s\Z" % ((DEC_OCTET,) * 4)).encode())
 
 
 def oracle_port(s):
@@ -227,7 +227,7 @@ def oracle_ip4(s):
     return bytes(parts)
 
 
-HEXG = re.compile(rb"^[0-9a-fA-F]{1,4}$")
+HEXG = re.compile(rb"\A[0-9a-fA-F]{1,4}\Z")
 
 
 def oracle_ip6(s):
